@@ -261,6 +261,27 @@ fn ring_pts(ty: Ty, c: GenCfg, min: usize) -> BoxedStrategy<Vec<V>> {
 
 /// Input geometry for the constructors of `ty` (bbox left zero, it is not an input).
 pub fn geom(ty: Ty, c: GenCfg) -> BoxedStrategy<Geom> {
+    // one shape in twelve has an all-(signed-)zero Z and/or M array: -0.0 == 0.0, yet the bits differ
+    (geom_placed(ty, c), 0u8..36)
+        .prop_map(move |(mut g, flat)| {
+            if flat < 3 {
+                for p in g.parts.iter_mut() {
+                    for v in p.pts.iter_mut() {
+                        if ty.has_z() && flat != 1 {
+                            v[2] = F::of(0.0f64.copysign(if v[2].is_nan() { 1.0 } else { v[2].v() }));
+                        }
+                        if ty.carries_m() && flat != 0 {
+                            v[3] = F::of(0.0f64.copysign(if v[3].is_nan() { -1.0 } else { v[3].v() }));
+                        }
+                    }
+                }
+            }
+            g
+        })
+        .boxed()
+}
+
+fn geom_placed(ty: Ty, c: GenCfg) -> BoxedStrategy<Geom> {
     if c.profile != Profile::FarDyadic && c.profile != Profile::FarTiny {
         return geom_base(ty, c);
     }
